@@ -509,6 +509,12 @@ func (l *loopState) notifySteps() { //nolint:gocognit
 		if failed {
 			if nodeItem.Kind == DAGItemKindOutput {
 				l.logger.Debugf("Output node %s failed", nodeID)
+				if _, stillWaiting := l.waitingOutputs[nodeID]; !stillWaiting {
+					// An unresolvable node is marked ready again for every further dependency that
+					// fails. It was already accounted for, so do not report the error again: the
+					// error channel has a limited capacity, and sending blocks while the lock is held.
+					continue
+				}
 				// Check to see if there are any remaining output nodes, and if there aren't,
 				// cancel the context.
 				delete(l.waitingOutputs, nodeID)
